@@ -196,6 +196,32 @@ func genC05(r *Rng, tier string) []Case {
 		}
 	}
 
+	// 3c. negative skips compensated later (and the other way round): the values add up, so a
+	//     total >= 0 is inside the property's domain whatever the single values and their order
+	k3c := 0
+	for _, tr := range [][3]int{{-1, 1, 0}, {-1, 0, 1}, {0, -1, 1}, {-2, 1, 1}, {-1, 2, 0}, {1, -1, 0}, {2, -1, 0}, {0, 2, -2}, {-1, 1, 1}, {-3, 3, 0}} {
+		for rep := 0; rep < 3; rep++ {
+			mk := func(s int) []c05Opt {
+				if s == 0 {
+					return nil
+				}
+				return []c05Opt{{T: "skip", A: s}}
+			}
+			var d c05Desc
+			switch rep {
+			case 0: // Define, context, call site
+				d = c05Desc{Ctor: k3c % 6, Mode: 1, Def: mk(tr[0]), Ctx: [][]c05Opt{mk(tr[1])}, Opts: mk(tr[2])}
+			case 1: // all three in one option list, in this order
+				d = c05Desc{Ctor: k3c % 6, Mode: 2, Opts: append(append(mk(tr[0]), mk(tr[1])...), mk(tr[2])...)}
+			default: // nested contexts
+				d = c05Desc{Ctor: k3c % 6, Mode: 1, Ctx: [][]c05Opt{mk(tr[0]), mk(tr[1]), mk(tr[2])}}
+			}
+			k3c++
+			c05RandSite(r, &d, 5)
+			out = append(out, runC05(d))
+		}
+	}
+
 	// 4. random mixtures: several skips and depths spread over Define, nested
 	//    contexts and the call site; StackSource; deep stacks around 32
 	n := 260
@@ -208,7 +234,7 @@ func genC05(r *Rng, tier string) []Case {
 		for i := 0; i < k; i++ {
 			switch r.Intn(10) {
 			case 0, 1, 2, 3:
-				os = append(os, c05Opt{T: "skip", A: r.Intn(4)})
+				os = append(os, c05Opt{T: "skip", A: r.Intn(5) - 1})
 			case 4, 5, 6:
 				os = append(os, c05Opt{T: "depth", A: Pick(r, []int{-1, 0, 1, 2, 3, 31, 32, 33, 40})})
 			case 7:
